@@ -149,15 +149,20 @@ func GovProfile(seed int64, out *Recorder, nOps int) *Chain {
 			if len(voting) > 0 && rng.Intn(8) > 0 {
 				pid = voting[rng.Intn(len(voting))]
 			}
-			n := 1 + rng.Intn(4)
-			bias := rng.Intn(3) // 0 random, 1 mostly yes, 2 mostly no
+			n := 1 + rng.Intn(5)
+			bias := rng.Intn(5) // 0 random, 1-2 mostly yes, 3 mostly no, 4 mostly veto
 			for j := 0; j < n; j++ {
 				v := rng.Intn(cfg.NAcc)
+				if rng.Intn(3) > 0 { // council members carry the votes that count
+					v = rng.Intn(cfg.NVal + cfg.NCert)
+				}
 				opt := voteOpts[rng.Intn(len(voteOpts))]
-				if bias == 1 && rng.Intn(4) > 0 {
+				if (bias == 1 || bias == 2) && rng.Intn(5) > 0 {
 					opt = sdkgovtypes.OptionYes
-				} else if bias == 2 && rng.Intn(3) > 0 {
+				} else if bias == 3 && rng.Intn(3) > 0 {
 					opt = sdkgovtypes.OptionNo
+				} else if bias == 4 && rng.Intn(3) > 0 {
+					opt = sdkgovtypes.OptionNoWithVeto
 				}
 				if rng.Intn(40) == 0 {
 					opt = sdkgovtypes.VoteOption(7)
